@@ -14,7 +14,7 @@ NAMESPACE = 'Props.C06'
 LEAN_CONE = ['PncModel.Arr', 'PncModel.File', 'PncProofs.ArrLemmas', 'PncProofs.C06']
 LEMMA_FILES = []
 REQUIRED_THEOREMS = ['zip_get', 'op_masked_operand', 'op_add_mul', 'op_div_zero', 'op_div', 'coords_passthrough',
-                     'missing_right_copied', 'maskHit_iff', 'mask_exact']
+                     'missing_right_copied', 'maskHit_iff', 'mask_exact', 'get_build', 'bcast_cell', 'rightData_same']
 RULE = ('kind binop: two conforming files (same dimensions/variables, float64 or int32, masked operands, zero and '
         'negative divisors, small integer and half-integer values, declared coordinate variables, a variable '
         'missing on the right) x the 13 operators + - * / // ** % < <= > >= == !=; kind mask: every subset of '
